@@ -115,12 +115,6 @@ theorem load_collectLeaf_prod (d : Decl V P) : load true (collectLeaf d) = .leaf
 theorem isLeafTree_map {α β : Type} (f : α → β) (t : T α) : isLeafTree (map f t) = isLeafTree t := by
   cases t <;> simp [map, isLeafTree]
 
-/-- the declarations the collapse rule mishandles (finding F70): a container whose leaves are all
-plain values or un-hashed `PythonNode`s, at least one of them a `PythonNode` written by the user. -/
-def f70Class (value : T (Decl V P)) : Bool :=
-  !isLeafTree value && (leaves value).all (fun d => isUnhashedPy (collectLeaf d)) &&
-    (leaves value).any (fun d => !isPlainValue d)
-
 end
 
 /-! ### the save loop -/
@@ -212,5 +206,89 @@ theorem get_foldl_set (f : String → X) : ∀ (names : List String) (acc : Dict
       · simp [h1, h2, Ne.symm h2]
 
 end Dict
+end TaskArgs
+end Pytask
+
+namespace Pytask
+namespace TaskArgs
+open PyTree
+
+namespace Dict
+variable {X Y : Type}
+
+theorem get_update_none (d e : Dict X) (k : String) (h : get e k = none) : get (update d e) k = get d k := by
+  induction e generalizing d with
+  | nil => simp [update]
+  | cons kv rest ih =>
+    obtain ⟨k1, x1⟩ := kv
+    have hne : k1 ≠ k := by
+      intro heq; subst heq; simp [get] at h
+    have hrest : get rest k = none := by simpa [get, hne] using h
+    have : update d ((k1, x1) :: rest) = update (set d k1 x1) rest := by simp [update]
+    rw [this, ih _ hrest, get_set]; simp [hne]
+
+theorem keys_set (d : Dict X) (k : String) (x : X) :
+    keys (set d k x) = if k ∈ keys d then keys d else keys d ++ [k] := by
+  induction d with
+  | nil => simp [set, keys]
+  | cons kv rest ih =>
+    obtain ⟨k0, x0⟩ := kv
+    simp only [keys] at ih ⊢
+    simp only [set]
+    by_cases h0 : k0 = k
+    · subst h0; simp
+    · simp only [h0, ↓reduceIte, List.map_cons, ih, List.mem_cons, Ne.symm h0, false_or]
+      by_cases hm : k ∈ List.map (fun x => x.fst) rest <;> simp [hm]
+
+theorem keys_set_nodup (d : Dict X) (k : String) (x : X) (h : (keys d).Nodup) : (keys (set d k x)).Nodup := by
+  rw [keys_set]
+  by_cases hm : k ∈ keys d
+  · simpa [hm] using h
+  · simp only [hm, ↓reduceIte]
+    exact List.nodup_append.2 ⟨h, by simp, by intro a ha b hb; simp at hb; subst hb; intro heq; subst heq; exact hm ha⟩
+
+theorem keys_foldl_set_nodup (f : String → X) : ∀ (names : List String) (acc : Dict X), (keys acc).Nodup →
+    (keys (names.foldl (fun acc n => set acc n (f n)) acc)).Nodup
+  | [], acc, h => by simpa using h
+  | n :: rest, acc, h => by
+    simp only [List.foldl_cons]
+    exact keys_foldl_set_nodup f rest _ (keys_set_nodup acc n (f n) h)
+
+end Dict
+
+section
+variable {V P : Type}
+
+/-- lookup in a dict built from the parameter list, one optional entry per parameter. -/
+theorem get_filterMap_params {X : Type} (g : Param V P → Option X) :
+    ∀ (params : List (Param V P)), (params.map (·.name)).Nodup → ∀ p ∈ params,
+      Dict.get (params.filterMap (fun q => (g q).map (fun x => (q.name, x)))) p.name = g p
+  | [], _, p, hp => by simp at hp
+  | q :: rest, hnd, p, hp => by
+    simp only [List.map_cons, List.nodup_cons] at hnd
+    have hnone : ∀ (ps : List (Param V P)) (n : String), n ∉ ps.map (·.name) →
+        Dict.get (ps.filterMap (fun q => (g q).map (fun x => (q.name, x)))) n = none := by
+      intro ps n hn
+      apply Dict.get_none_of_not_mem
+      intro hmem
+      apply hn
+      simp only [Dict.keys, List.mem_map, List.mem_filterMap, Option.map_eq_some_iff] at hmem
+      obtain ⟨⟨k, x⟩, ⟨q', hq', x', _, heq⟩, hk⟩ := hmem
+      simp only [Prod.mk.injEq] at heq
+      simp only at hk
+      exact List.mem_map.2 ⟨q', hq', by rw [heq.1, hk]⟩
+    rcases List.mem_cons.1 hp with rfl | hin
+    · simp only [List.filterMap_cons]
+      cases hg : g p with
+      | none => simpa using hnone rest p.name hnd.1
+      | some x => simp [Dict.get]
+    · have hne : q.name ≠ p.name := by
+        intro heq; exact hnd.1 (heq ▸ List.mem_map.2 ⟨p, hin, rfl⟩)
+      simp only [List.filterMap_cons]
+      cases hg : g q with
+      | none => simpa using get_filterMap_params g rest hnd.2 p hin
+      | some x => simpa [Dict.get, hne] using get_filterMap_params g rest hnd.2 p hin
+
+end
 end TaskArgs
 end Pytask
